@@ -599,12 +599,23 @@ def ber_variant(T, v, rng, p=None, script=None):
 
 
 def default_any_maker(rng):
-    """A complete, canonical TLV usable as the value of an ANY."""
+    """A complete, canonical (DER) TLV usable as the value of an ANY."""
     o = U.GenOpts(depth=1, allow_any=False, allow_real=False, big_strings=False, fanout=2,
                   allow_default=False, big_tag_numbers=False)
     T = U.gen_type(rng, o, depth=rng.choice([0, 0, 1]))
     v = U.gen_value(rng, T, o, small=True)
     return der(T, v)
+
+
+def ber_any_maker(rng):
+    """ANY values in arbitrary BER form (indefinite lengths, segmented strings) - for BER-only properties."""
+    o = U.GenOpts(depth=2, allow_any=False, allow_real=False, big_strings=False, fanout=2,
+                  allow_default=False, big_tag_numbers=False)
+    T = U.gen_type(rng, o, depth=rng.choice([0, 1, 2]))
+    v = U.gen_value(rng, T, o, small=True)
+    if rng.random() < 0.3:
+        return der(T, v)
+    return ber_variant(T, v, rng, p={'indef': 0.7})[0]
 
 
 # ------------------------------------------------------------------ schemaless TLV parser
